@@ -18,6 +18,7 @@ import (
 	"github.com/anyproto/any-sync/commonspace/object/acl/list"
 	"github.com/anyproto/any-sync/commonspace/object/keyvalue/keyvaluestorage/innerstorage"
 	"github.com/anyproto/any-sync/commonspace/spacesyncproto"
+	"github.com/anyproto/any-sync/commonspace/sync/objectsync/objectmessages"
 
 	"verifharness/vfutil"
 )
@@ -99,6 +100,7 @@ type run struct {
 	ex       *exchange
 	exC, exR string
 	exPhase  string // "started", "served", "done"
+	pushes   int
 	exClean  bool
 	exCSnap  map[string]innerstorage.KeyValue
 	exRSnap  map[string]innerstorage.KeyValue
@@ -348,7 +350,20 @@ func (r *run) pushBatch(s string, batch []mval, f fault) stepResult {
 	}
 	before, _, _ := r.state(s)
 	r.arm(s, f)
-	err := r.stores[s].st.SetRaw(ctx, protos...)
+	// alternately through the storage API and through the service's head-update handler (the wire
+	// form: marshalled StoreKeyValues inside an object-sync head update)
+	var err error
+	r.pushes++
+	if r.pushes%2 == 0 {
+		err = r.stores[s].st.SetRaw(ctx, protos...)
+	} else {
+		raw, merr := (&spacesyncproto.StoreKeyValues{KeyValues: protos}).MarshalVT()
+		if merr != nil {
+			r.harness = merr
+			return stepResult{}
+		}
+		err = r.stores[s].svc.HandleMessage(ctx, &objectmessages.HeadUpdate{Bytes: raw})
+	}
 	fired := r.disarm(s, f)
 	res := stepResult{Ok: err == nil, Fired: fired}
 	if err == nil {
@@ -622,6 +637,34 @@ func (r *run) drain() {
 	r.ex = nil
 }
 
+// restart opens a new service over the same database and space id (keyvaluestorage.New on an existing
+// collection rebuilds the index from the rows); the advertised hash must not change by that
+func (r *run) restart(s string) stepResult {
+	old := r.stores[s]
+	before, err := old.observe()
+	if err != nil {
+		r.harness = err
+		return stepResult{}
+	}
+	_ = old.svc.Close(ctx)
+	c := r.cfg[s]
+	st, err := newStore(r.w, r.dbs[s], old.spaceId, s, c.Acc, c.Dev, c.Knows-1)
+	if err != nil {
+		r.harness = err
+		return stepResult{}
+	}
+	r.stores[s] = st
+	after, err := st.observe()
+	if err != nil {
+		r.harness = err
+		return stepResult{}
+	}
+	if after.Hash != before.Hash {
+		r.violate("restart-changes-advertised-hash", fmt.Sprintf("store %s advertises hash %s before and %s after being reopened over the same rows", s, short(before.Hash), short(after.Hash)))
+	}
+	return stepResult{Ok: true}
+}
+
 // exec runs one step and the oracles; returns the projected states of all stores
 func (r *run) exec(st step) (map[string]stState, stepResult) {
 	r.done = append(r.done, step{Act: st.Act, S: st.S, Key: st.Key, Batch: st.Batch, Fault: st.Fault, Peer: st.Peer})
@@ -641,6 +684,8 @@ func (r *run) exec(st step) (map[string]stState, stepResult) {
 	case "ExchFinish":
 		r.exchFinish()
 		res.Ok = true
+	case "Restart":
+		res = r.restart(st.S)
 	default:
 		r.harness = fmt.Errorf("unknown action %q", st.Act)
 	}
